@@ -61,7 +61,7 @@ impl serde::Serialize for BasicHeader {
 
         // Normalize logical_terminal to exactly 12 characters for JSON
         let normalized_logical_terminal = if self.logical_terminal.len() > 12 {
-            self.logical_terminal[..12].to_string()
+            char_prefix(&self.logical_terminal, 12).to_string()
         } else if self.logical_terminal.len() < 12 {
             format!("{:X<12}", self.logical_terminal)
         } else {
@@ -98,7 +98,7 @@ impl<'de> serde::Deserialize<'de> for BasicHeader {
 
         // Normalize logical_terminal to exactly 12 characters
         let normalized_logical_terminal = if helper.logical_terminal.len() > 12 {
-            helper.logical_terminal[..12].to_string()
+            char_prefix(&helper.logical_terminal, 12).to_string()
         } else if helper.logical_terminal.len() < 12 {
             format!("{:X<12}", helper.logical_terminal)
         } else {
@@ -120,9 +120,23 @@ impl<'de> serde::Deserialize<'de> for BasicHeader {
     }
 }
 
+/// The first `n` characters of `s` (the whole of `s` when it is shorter); never splits a character
+fn char_prefix(s: &str, n: usize) -> &str {
+    match s.char_indices().nth(n) {
+        Some((i, _)) => &s[..i],
+        None => s,
+    }
+}
+
 impl BasicHeader {
     /// Parse basic header from block 1 string
     pub fn parse(block1: &str) -> Result<Self> {
+        if !block1.is_ascii() {
+            return Err(ParseError::InvalidBlockStructure {
+                block: "1".to_string(),
+                message: "Block 1 contains characters outside the SWIFT character set".to_string(),
+            });
+        }
         // Expected format: F01SSSSSSSSSCCC0000NNNNNN (exactly 25 characters)
         // Where: F=app_id, 01=service_id, SSSSSSSSSCCC=logical_terminal(12), 0000=session(4), NNNNNN=sequence(6)
         if block1.len() != 25 {
@@ -202,7 +216,7 @@ impl std::fmt::Display for BasicHeader {
 
         // Pad or truncate logical_terminal to exactly 12 characters
         let logical_terminal = if self.logical_terminal.len() > 12 {
-            self.logical_terminal[..12].to_string()
+            char_prefix(&self.logical_terminal, 12).to_string()
         } else if self.logical_terminal.len() < 12 {
             // Pad with 'X' to reach 12 characters (standard for missing branch codes)
             format!("{:X<12}", self.logical_terminal)
@@ -211,16 +225,10 @@ impl std::fmt::Display for BasicHeader {
         };
 
         // Ensure session_number is exactly 4 digits, left-padded with zeros
-        let session_number = format!(
-            "{:0>4}",
-            &self.session_number[..self.session_number.len().min(4)]
-        );
+        let session_number = format!("{:0>4}", char_prefix(&self.session_number, 4));
 
         // Ensure sequence_number is exactly 6 digits, left-padded with zeros
-        let sequence_number = format!(
-            "{:0>6}",
-            &self.sequence_number[..self.sequence_number.len().min(6)]
-        );
+        let sequence_number = format!("{:0>6}", char_prefix(&self.sequence_number, 6));
 
         write!(
             f,
@@ -262,7 +270,7 @@ impl serde::Serialize for InputApplicationHeader {
 
         // Normalize destination_address to exactly 12 characters for JSON
         let normalized_destination_address = if self.destination_address.len() > 12 {
-            self.destination_address[..12].to_string()
+            char_prefix(&self.destination_address, 12).to_string()
         } else if self.destination_address.len() < 12 {
             format!("{:X<12}", self.destination_address)
         } else {
@@ -306,7 +314,7 @@ impl<'de> serde::Deserialize<'de> for InputApplicationHeader {
 
         // Normalize destination_address to exactly 12 characters
         let normalized_destination_address = if helper.destination_address.len() > 12 {
-            helper.destination_address[..12].to_string()
+            char_prefix(&helper.destination_address, 12).to_string()
         } else if helper.destination_address.len() < 12 {
             format!("{:X<12}", helper.destination_address)
         } else {
@@ -375,6 +383,12 @@ pub enum ApplicationHeader {
 impl ApplicationHeader {
     /// Parse application header from block 2 string
     pub fn parse(block2: &str) -> Result<Self> {
+        if !block2.is_ascii() {
+            return Err(ParseError::InvalidBlockStructure {
+                block: "2".to_string(),
+                message: "Block 2 contains characters outside the SWIFT character set".to_string(),
+            });
+        }
         if block2.len() < 4 {
             return Err(ParseError::InvalidBlockStructure {
                 block: "2".to_string(),
@@ -598,14 +612,11 @@ impl std::fmt::Display for InputApplicationHeader {
         // - priority is always 1 character
 
         // Ensure message_type is exactly 3 characters
-        let message_type = format!(
-            "{:0>3}",
-            &self.message_type[..self.message_type.len().min(3)]
-        );
+        let message_type = format!("{:0>3}", char_prefix(&self.message_type, 3));
 
         // Pad or truncate destination_address to exactly 12 characters
         let destination_address = if self.destination_address.len() > 12 {
-            self.destination_address[..12].to_string()
+            char_prefix(&self.destination_address, 12).to_string()
         } else if self.destination_address.len() < 12 {
             format!("{:X<12}", self.destination_address)
         } else {
@@ -781,6 +792,12 @@ pub struct PaymentControlsInfo {
 impl UserHeader {
     /// Parse user header from block 3 string using structured parsing
     pub fn parse(block3: &str) -> Result<Self> {
+        if !block3.is_ascii() {
+            return Err(ParseError::InvalidBlockStructure {
+                block: "3".to_string(),
+                message: "Block 3 contains characters outside the SWIFT character set".to_string(),
+            });
+        }
         let mut user_header = UserHeader::default();
 
         // Parse nested tags in format {tag:value}
@@ -1173,6 +1190,12 @@ pub struct SystemOriginatedMessage {
 impl Trailer {
     /// Parse trailer from block 5 string using structured parsing
     pub fn parse(block5: &str) -> Result<Self> {
+        if !block5.is_ascii() {
+            return Err(ParseError::InvalidBlockStructure {
+                block: "5".to_string(),
+                message: "Block 5 contains characters outside the SWIFT character set".to_string(),
+            });
+        }
         let mut trailer = Trailer::default();
 
         // Extract common tags if present
